@@ -437,9 +437,13 @@ fn resolve<'a, E: 'a + Send, R: Resolver>(
             .map(move |res| match res {
                 Ok(ips) => {
                     let mut ips = ips.iter();
-                    let one = ips
-                        .next()
-                        .expect("If there are no results, `Err(NoRecordsFound)` is expected.");
+                    // A resolver may answer with a lookup that holds no record of the
+                    // requested type (e.g. an empty or CNAME-only answer).
+                    let Some(one) = ips.next() else {
+                        return Err(Error::ResolveError(ResolveError::from(
+                            "No Matching Records Found",
+                        )));
+                    };
                     if let Some(two) = ips.next() {
                         Ok(Resolved::Many(
                             iter::once(one)
@@ -466,9 +470,13 @@ fn resolve<'a, E: 'a + Send, R: Resolver>(
                             RData::A(ip) => Some(Ipv4Addr::from(*ip)),
                             _ => None,
                         });
-                    let one = ips
-                        .next()
-                        .expect("If there are no results, `Err(NoRecordsFound)` is expected.");
+                    // A resolver may answer with a lookup that holds no record of the
+                    // requested type (e.g. an empty or CNAME-only answer).
+                    let Some(one) = ips.next() else {
+                        return Err(Error::ResolveError(ResolveError::from(
+                            "No Matching Records Found",
+                        )));
+                    };
                     if let Some(two) = ips.next() {
                         Ok(Resolved::Many(
                             iter::once(one)
@@ -495,9 +503,13 @@ fn resolve<'a, E: 'a + Send, R: Resolver>(
                             RData::AAAA(ip) => Some(Ipv6Addr::from(*ip)),
                             _ => None,
                         });
-                    let one = ips
-                        .next()
-                        .expect("If there are no results, `Err(NoRecordsFound)` is expected.");
+                    // A resolver may answer with a lookup that holds no record of the
+                    // requested type (e.g. an empty or CNAME-only answer).
+                    let Some(one) = ips.next() else {
+                        return Err(Error::ResolveError(ResolveError::from(
+                            "No Matching Records Found",
+                        )));
+                    };
                     if let Some(two) = ips.next() {
                         Ok(Resolved::Many(
                             iter::once(one)
